@@ -278,6 +278,11 @@ func UnParam(tok []string) (def.TaskUpdateParam, error) {
 
 // Err maps an error to the small enum of DESIGN §1.2.
 func Err(err error) string {
+	// an error injected by the harness names itself, however the implementation wrapped it and whatever else it is
+	var pt interface{ ProtoTok() string }
+	if err != nil && errors.As(err, &pt) {
+		return pt.ProtoTok()
+	}
 	switch {
 	case err == nil:
 		return "ok"
